@@ -429,6 +429,7 @@ func str2numFunc(scope *scope, args []value) (value, error) {
 	if err != nil {
 		msg := fmt.Sprintf("str2num: cannot parse %q", s.V)
 		setGlobalErr(scope, msg)
+		n = 0 // documented: 0 on error (ParseFloat returns ±Inf for range errors)
 	}
 	return &numVal{V: n}, nil
 }
